@@ -357,6 +357,14 @@ func (g *gen) text() string {
 	if g.r.Chance(15) {
 		s = g.sep() + s
 	}
+	// truncated texts: cut anywhere (inside a token, a string, an escape, a list, after a prefix such as ' or #')
+	// or end in a dangling reader prefix (added after seeded change C02-4 was missed)
+	switch x := g.r.Intn(100); {
+	case x < 18 && len(s) > 1:
+		s = s[:1+g.r.Intn(len(s)-1)]
+	case x < 26:
+		s += common.Pick(g.r, []string{" '", " `", " #'", "'", " `,", " (a '", " '  ", "\n'\n"})
+	}
 	return s
 }
 
